@@ -58,7 +58,7 @@ func RandOptions(r *fw.Rand) lab.Options {
 	o.Beacon = beacontypes.NewParams(fee(), fee(), fee(), bd, d, m)
 	vf := []string{"0", "0.000000000000000001", "0.01", "0.333333333333333333", "0.999999999999999999", "1", "0.24"}
 	o.Stream = streamtypes.Params{ValidatorFee: sdk.MustNewDecFromStr(vf[r.Intn(len(vf))])}
-	ids := []uint64{1, 1, 1000, 1 << 32 + 5}
+	ids := []uint64{1, 1, 1000, 1<<32 + 5}
 	o.PoStartID = ids[r.Intn(len(ids))]
 	o.WrkStartID = ids[r.Intn(len(ids))]
 	o.BeaconStartID = ids[r.Intn(len(ids))]
